@@ -3,7 +3,7 @@ imported only by make_profile / region_depths.
 
 API
 ---
-simulate(desc, build, alleles, structure, L, step, out_bam, rng, noise=None, sq_detect=True) -> info dict
+simulate(desc, build, alleles, structure, L, step, out_bam, rng, noise=None, sq_detect=True, background=None) -> info dict
     alleles   : list of allele specs, ONE PER GENE COPY, e.g. ["1.001", "2.001", "2.001"].  A spec is a minor-allele name of
                 desc["alleles"]; "F#B" = fusion allele F whose gene part carries base allele B's variants (plus F's own);
                 a deletion allele's name = a chromosome without the gene.
@@ -26,6 +26,10 @@ simulate(desc, build, alleles, structure, L, step, out_bam, rng, noise=None, sq_
                 MAPQ 0..9), softclip_frac (reads whose first or last 3..15 aligned bases become a soft clip),
                 drop_frac (reads removed), skew=[(start, end, keep_prob), ...] (reads starting in [start,end) kept with prob),
                 alt_reads=[(chr_pos, op, n_reads)] is NOT supported (plant a copy instead).
+    background: extra genome-orientation variants [(chr_pos0, op)] applied to EVERY copy (or {copy_index: [...]} for chosen copies)
+                wherever they fall (pseudogene, flanks,
+                neutral region, ...), e.g. a deletion outside the RefSeq window; they are not part of any allele.
+    noise["holes"]=[(start, end)]: every read overlapping [start,end) is removed (a coverage gap).
     sq_detect : also write an @SQ line for chromosome "1" with the build's length so that aldy's genome detection answers
                 `build` (aldy decides hg19/hg38 from the lengths of 1, 10, 22).
     Output    : coordinate-sorted, indexed BAM `out_bam` (sample name for aldy = basename up to the first '.').
@@ -186,7 +190,7 @@ def _expected_region_cn(desc, build, copies):
 
 
 # ----------------------------------------------------------------------------------------------------------------------
-def simulate(desc, build, alleles, structure, L, step, out_bam, rng, noise=None, sq_detect=True):
+def simulate(desc, build, alleles, structure, L, step, out_bam, rng, noise=None, sq_detect=True, background=None):
     import pysam
     from gendb import allele_genome_variants
     bd = desc["builds"][build]
@@ -197,7 +201,8 @@ def simulate(desc, build, alleles, structure, L, step, out_bam, rng, noise=None,
     recs, copies = [], []
     for ci, (spec, kind) in enumerate(zip(alleles, structure)):
         pcs = _pieces(desc, build, spec, kind)
-        variants = allele_genome_variants(desc, build, spec)
+        bg = (background.get(ci, []) if isinstance(background, dict) else background) or []
+        variants = allele_genome_variants(desc, build, spec) + [tuple(v) for v in bg]
         copies.append([(a, b) for a, b in pcs])
         flat, cuts = [], []
         for a, b in pcs:
@@ -257,7 +262,13 @@ def _apply_noise(recs, noise, rng):
     clip = noise.get("softclip_frac", 0.0)
     drop = noise.get("drop_frac", 0.0)
     skew = noise.get("skew", [])
+    holes = noise.get("holes", [])
+
+    def ref_end(r):
+        return r["start"] + sum(n for op, n in r["cigar"] if op in (0, 2, 7, 8))
     for r in recs:
+        if any(r["start"] < b and ref_end(r) > a for a, b in holes):
+            continue
         if drop and rng.random() < drop:
             continue
         keep = True
